@@ -225,14 +225,20 @@ void ScriptMaster::DeleteProgramScript(ProgramScript* script)
 {
     m_ProgramScripts.remove(script->Filename());
 
-    con::Container<ScriptClass*> list;
-    ScriptClass* scriptClass;
-
-    ScriptClass* next;
-    for (scriptClass = GetHeadContainer(); scriptClass != nullptr; scriptClass = next)
+    // collect the instances first: deleting one can delete another one (a thread waiting on
+    // one of its threads), so they are held by weak references
+    con::Container<SafePtr<ScriptClass>> list;
+    for (ScriptClass* scriptClass = GetHeadContainer(); scriptClass != nullptr; scriptClass = scriptClass->GetNext())
     {
-        next = scriptClass->GetNext();
         if (scriptClass->GetScript() == script) {
+            list.AddObject(scriptClass);
+        }
+    }
+
+    for (uintptr_t i = 1; i <= list.NumObjects(); ++i)
+    {
+        ScriptClass* const scriptClass = list.ObjectAt(i);
+        if (scriptClass) {
             delete scriptClass;
         }
     }
@@ -432,14 +438,20 @@ void ScriptMaster::Archive(Archiver& arc)
 
 void ScriptMaster::KillScripts()
 {
-    ScriptClass* next;
-    for (ScriptClass* s = headScript; s; s = next)
+    // deleting an instance can delete other instances (whose threads wait on its threads):
+    // never keep a pointer across a delete, always take the current head
+    while (headScript)
     {
-        next = s->GetNext();
+        ScriptClass* const s = headScript;
+        ScriptClass* const after = s->GetNext();
         delete s;
-    }
 
-    headScript = nullptr;
+        if (headScript == s)
+        {
+            // it did not unlink itself
+            headScript = after;
+        }
+    }
 }
 
 ThreadExecutionProtection::ThreadExecutionProtection()
